@@ -4,7 +4,7 @@ From Coq Require Import ZifyN ZifyNat ZifyBool.
 From Mant Require Import Prim.R Prim.Bytes Algo.Word Algo.AES Algo.DES Algo.RC4 Algo.CMAC Algo.Base64 Algo.Utf16 Algo.Utf8.
 From Mant Require Import Proofs.AlgoProofs.
 From Mant Require Import Model.Rc4Go Model.CmacGo Model.Pkcs7 Model.Gppp Gen.ConstsC12 Spec.C12.
-From Mant Require Import Proofs.C12Rc4 Proofs.C12Cmac Proofs.C12Pkcs7 Proofs.C12Gppp.
+From Mant Require Import Proofs.C12Rc4 Proofs.C12Cmac Proofs.C12Pkcs7 Proofs.C12Gppp Proofs.C12AesInv.
 Import ListNotations.
 Open Scope N_scope.
 
@@ -72,18 +72,21 @@ Qed.
 
 (* ---------------- GPP instance ---------------- *)
 
+Lemma aes_block_dec_enc b :
+  length b = 16%nat -> wf_bytes b ->
+  aes_block_dec c12_gppp_aes_key (aes_block_enc c12_gppp_aes_key b) = b.
+Proof. intros Hl Hw. unfold aes_block_dec, aes_block_enc. apply aes_decrypt_encrypt; [apply gppp_key_wf|exact Hl|exact Hw]. Qed.
+
 Theorem gppp_roundtrip_aes :
-  (forall b, length b = 16%nat -> wf_bytes b ->
-     aes_block_dec c12_gppp_aes_key (aes_block_enc c12_gppp_aes_key b) = b) ->
   forall cps, Forall scalar_value cps ->
   exists enc,
     gppp_encrypt (utf8_encode cps) = Ok enc /\
     gppp_decrypt_b64 enc = Ok (utf8_encode cps) /\
     exists ct, b64_decode enc = Some ct /\ gppp_decrypt_bytes ct = Ok (utf8_encode cps).
 Proof.
-  intros Hinv cps Hcps.
+  intros cps Hcps.
   exact (gppp_roundtrip aes_block_enc aes_block_dec c12_gppp_aes_key eq_refl
-           (aes_block_enc_len c12_gppp_aes_key) aes_block_enc_wf Hinv cps Hcps).
+           (aes_block_enc_len c12_gppp_aes_key) aes_block_enc_wf aes_block_dec_enc cps Hcps).
 Qed.
 
 Theorem gppp_decrypt_bytes_total ct : gppp_decrypt_bytes ct <> Panic.
